@@ -55,6 +55,22 @@ def _mk_ggm():
     return ff.PulseSequence([[Y, [0.8, 0.1, -0.5], 'Y']], [[Z, [1, -1, 1], 'Z']], [0.4, 0.4, 1.1], basis=ff.Basis.ggm(2))
 
 
+def _mk_projector():
+    """one noise operator with non-zero trace whose first row vanishes: |1><1| (the identity component of the noise
+    operator matters for the infidelity; np.trace on the operator stack would call it traceless)"""
+    P1 = np.array([[0, 0], [0, 1]], dtype=complex)
+    return ff.PulseSequence([[X, [0.9, -0.3, 0.5], 'X'], [Y, [0.1, 0.7, -0.4], 'Y']], [[P1, [1.0, 0.8, 1.3], 'P1']],
+                            [0.6, 0.9, 0.5], basis=ff.Basis.pauli(1))
+
+
+def _mk_offset():
+    """noise operators sigma_z/2 + 0.7*1 and |1><1|"""
+    P1 = np.array([[0, 0], [0, 1]], dtype=complex)
+    return ff.PulseSequence([[X, [0.4, 1.1], 'X'], [Z, [0.3, -0.2], 'Zc']],
+                            [[Z / 2 + 0.7 * np.eye(2), [1.0, 0.6], 'Zoff'], [P1, [0.5, 1.0], 'P1']], [0.8, 0.7],
+                            basis=ff.Basis.pauli(1))
+
+
 def _mk_extended():
     """two single-qubit pulses extended to a two-qubit pulse WITH cached diagonalization: eigvals / eigvecs are
     assembled from those of the inputs (not what numeric.diagonalize returns for the two-qubit Hamiltonian)"""
@@ -69,8 +85,9 @@ def _mk_extended():
 
 GRIDS = [[np.linspace(0.1, 5, 4), np.linspace(0.3, 9, 4), np.linspace(0.2, 3, 3)],
          [np.array([-2.0, 0.0, 1.5]), np.array([-2.0, 0.0, 1.5000001]), np.array([-2.0, 0.0, 1.5, 4.0])]]
-WORLDS = [(_mk_pauli, 0), (_mk_nontraceless, 0), (_mk_ggm, 1), (_mk_pauli, 1), (_mk_extended, 0)]
-PLAIN = [0, 1, 2, 3]
+WORLDS = [(_mk_pauli, 0), (_mk_nontraceless, 0), (_mk_ggm, 1), (_mk_pauli, 1), (_mk_extended, 0), (_mk_projector, 0),
+          (_mk_offset, 1)]
+PLAIN = [0, 1, 2, 3, 5, 6]
 EXTENDED = 4            # the model's FreshExtended object
 _world_cache = {}
 
@@ -200,7 +217,8 @@ def battery(w, mini=False):
     for g in range(3):
         ops += [('GetFF', g, 'Fidelity', 'Second', False), ('GetDeriv', g), ('GetCM', g, True),
                 ('GetFF', g, 'Generalized', 'First', False), ('GetPhases', g),
-                ('Infidelity', g, 'Total', False), ('Cumulant', g, 'Total', True, None)]
+                ('Infidelity', g, 'Total', w.noise_traceless, False), ('Cumulant', g, 'Total', True, None),
+                ('DecayAmplitudes', g, 'Total', False)]
     return ops
 
 
@@ -346,6 +364,26 @@ def random_history(r, wk, maxlen=8, p_fail=0.15, bad_user=False):
     return H
 
 
+def targeted_histories(wk):
+    w = world(wk)
+    tl = w.noise_traceless
+    for g in (0, 2):
+        consumers = [('Infidelity', g, 'Total', tl, False), ('Infidelity', g, 'Total', tl, True), ('DecayAmplitudes', g, 'Total', False),
+                     ('Cumulant', g, 'Total', False, None), ('Cumulant', g, 'Total', True, None),
+                     ('ErrorTransferMatrix', g, False, False), ('InfidelityDerivative', g)]
+        prefixes = [[('call', 0, ('GetFF', g, 'Fidelity', 'First', False)), ('call', 0, ('Cleanup', 'Greedy'))],
+                    [('call', 0, ('CacheFF', g, None, 'UOk', 'Fidelity', 'First', False))],
+                    [('call', 0, ('GetFF', g, 'Generalized', 'First', True)), ('call', 0, ('Cleanup', 'Greedy'))],
+                    [('call', 0, ('CacheFF', g, None, 'UOk', 'Generalized', 'First', False))],
+                    [('call', 0, ('GetFF', g, 'Fidelity', 'First', False)), ('copy', 0), ('call', 0, ('Cleanup', 'CleanAll'))],
+                    [('call', 0, ('GetFF', 1, 'Fidelity', 'First', False)), ('call', 0, ('CacheFF', g, None, 'UOk', 'Fidelity', 'First', False))]]
+        for pre in prefixes:
+            tgt = 1 if any(c[0] == 'copy' for c in pre) else 0
+            for c in consumers:
+                yield pre + [('call', tgt, c)]
+                yield pre + [('call', tgt, c), ('call', tgt, ('Infidelity', g, 'Total', tl, False))]
+
+
 def exhaustive_histories(wk, length, small):
     """all histories [copy 0] + `length` calls over alphabet x {pulse, copy}"""
     w = world(wk)
@@ -421,6 +459,11 @@ def run(ctx):
     for n in range(nrand):
         wk = PLAIN[n % len(PLAIN)]
         items.append((wk, random_history(r, wk, bad_user=(n % 6 == 0)), False))
+    # targeted: the filter function cached WITHOUT the control matrix (clean-up, or user-supplied filter function, on the
+    # pulse or through a copy), then the quantities integrated from filter function / control matrix
+    for wk in PLAIN:
+        for H in targeted_histories(wk):
+            items.append((wk, H, True))
     # the pulse made by extend(...) with cached diagonalization (model: FreshExtended)
     for n in range(300 if ctx.thorough else 60):
         items.append((EXTENDED, random_history(r, EXTENDED, maxlen=6, p_fail=0.1), n % 4 != 0))
